@@ -5,12 +5,16 @@ package httpserver
 import (
 	"bufio"
 	"fmt"
+	"math/rand"
 	"net"
 	"net/http"
+	"reflect"
+	goruntime "runtime"
 	"strings"
 	"sync"
 	"testing"
 	"time"
+	"unsafe"
 
 	"github.com/megaease/easegress/pkg/context"
 	"github.com/megaease/easegress/pkg/protocols/httpprot"
@@ -260,4 +264,418 @@ func TestVerif_C11_Runtime(t *testing.T) {
 	}
 	r.Require("runtime_updates_applied_with_request_in_flight", 1)
 	r.Require("runtime_in_flight_requests_completed_after_update", 1)
+}
+
+// ---------------------------------------------------------------------------------------
+// rig 5: option HISTORIES.  An option (maxConnections) is left unchanged by some updates and
+// changed by later ones; after every update the value IN FORCE is observed through behaviour:
+// as many simultaneous connections as the applied spec allows are opened and each request
+// must enter its backend.
+
+// c11hSpec is generation k of the history server: the rules carry k, maxConnections = maxConn,
+// cacheSize = cache (the "other" hot-updatable option of the history).
+func c11hSpec(port, k, maxConn, cache int) string {
+	var b strings.Builder
+	fmt.Fprintf(&b, "kind: HTTPServer\nname: c11h\nport: %d\nkeepAlive: true\nhttps: false\nmaxConnections: %d\n", port, maxConn)
+	if cache > 0 {
+		fmt.Fprintf(&b, "cacheSize: %d\n", cache)
+	}
+	fmt.Fprintf(&b, "rules:\n- paths:\n  - path: /fast\n    backend: fast-%d\n  - path: /slow\n    backend: slow-%d\n", k, k)
+	return b.String()
+}
+
+// c11hAdjusters takes an atomic snapshot (runtime.Stack stops the world) of all goroutines and
+// counts those that run the capacity adjustment of a connection limit (the goroutine started by
+// sem.(*Semaphore).SetMaxCount, which the runtime's reload calls through
+// limitListener.SetMaxConnection): waiting = parked in a channel receive, i.e. waiting for the
+// adjustment requested before it; active = in any other state (runnable, running, acquiring
+// permits).  The adjustments of one listener are requested one after the other by the fsm
+// goroutine and form a chain in which each waits for its predecessor only: when at least one
+// waits and none is active, the head of some chain waits for a signal no goroutine can give any
+// more - that adjustment can never take effect, however long one waits.
+func c11hAdjusters() (waiting, active int) {
+	buf := make([]byte, 1<<20)
+	for {
+		n := goruntime.Stack(buf, true)
+		if n < len(buf) {
+			buf = buf[:n]
+			break
+		}
+		buf = make([]byte, 2*len(buf))
+	}
+	for _, g := range strings.Split(string(buf), "\n\n") {
+		if !strings.Contains(g, "pkg/util/sem.(*Semaphore).SetMaxCount.func") {
+			continue
+		}
+		// only goroutines whose OWN frames are in the adjustment function, not the one
+		// that merely created it
+		own := false
+		for _, ln := range strings.Split(g, "\n") {
+			if strings.Contains(ln, "pkg/util/sem.(*Semaphore).SetMaxCount.func") && !strings.HasPrefix(ln, "created by") {
+				own = true
+			}
+		}
+		if !own {
+			continue
+		}
+		hdr := g
+		if j := strings.IndexByte(g, '\n'); j >= 0 {
+			hdr = g[:j]
+		}
+		if strings.Contains(hdr, "[chan receive") {
+			waiting++
+		} else {
+			active++
+		}
+	}
+	return
+}
+
+// c11hHandedOver returns the capacity that the runtime has REQUESTED from its limit listener so far
+// (Semaphore.realCapacity, read under the semaphore's own lock), after the fsm has finished
+// every reload sent to it: a stale serve-failure event (start number 0, ignored by the fsm)
+// is queued behind them and the call waits until the queue has been drained.  ok=false: not
+// observable (fields renamed, queue not drained within the watchdog).  Must be called after a
+// backend was seen entered (happens-before edge for rt.limitListener, which startServer
+// assigns before the first connection is accepted; the histories never restart the listener).
+func c11hHandedOver(rt *runtime) (n int64, ok bool) {
+	select {
+	case rt.eventChan <- &eventServeFailed{err: fmt.Errorf("c11 barrier"), startNum: 0}:
+	case <-time.After(30 * time.Second):
+		return 0, false
+	}
+	for dl := time.Now().Add(30 * time.Second); len(rt.eventChan) != 0; time.Sleep(time.Millisecond) {
+		if time.Now().After(dl) {
+			return 0, false
+		}
+	}
+	defer func() {
+		if recover() != nil {
+			n, ok = 0, false
+		}
+	}()
+	if rt.limitListener == nil {
+		return 0, false
+	}
+	sv := reflect.ValueOf(rt.limitListener).Elem().FieldByName("sem")
+	if !sv.IsValid() || sv.Kind() != reflect.Ptr || sv.IsNil() {
+		return 0, false
+	}
+	se := reflect.NewAt(sv.Type().Elem(), unsafe.Pointer(sv.Pointer())).Elem()
+	lk, rc := se.FieldByName("lock"), se.FieldByName("realCapacity")
+	if !lk.IsValid() || !rc.IsValid() || lk.Type() != reflect.TypeOf(sync.Mutex{}) || rc.Kind() != reflect.Int64 {
+		return 0, false
+	}
+	mu := (*sync.Mutex)(unsafe.Pointer(lk.UnsafeAddr()))
+	mu.Lock()
+	n = *(*int64)(unsafe.Pointer(rc.UnsafeAddr()))
+	mu.Unlock()
+	return n, true
+}
+
+type c11hStep struct {
+	Kind  string `json:"kind"` // rules | other | raise | lower
+	Cap   int    `json:"maxConnections"`
+	Cache int    `json:"cacheSize"`
+}
+
+// c11hHistory draws cap0 and the update history.  Every third case is the template
+// create -> rules-only -> change -> rules-only -> change back; the others are random mixes.
+func c11hHistory(rng *rand.Rand, i int, thorough bool) (cap0 int, steps []c11hStep) {
+	cap0 = 2 + rng.Intn(4) // 2..5
+	var kinds []string
+	if i%3 == 0 {
+		ch, back := "raise", "lower"
+		if (i/3)%2 == 1 && cap0 > 2 {
+			ch, back = "lower", "raise"
+		}
+		kinds = []string{"rules", ch, []string{"rules", "other"}[rng.Intn(2)], back}
+	} else {
+		n := 4 + rng.Intn(2)
+		if thorough {
+			n = 4 + rng.Intn(5)
+		}
+		for j := 0; j < n; j++ {
+			kinds = append(kinds, []string{"rules", "rules", "other", "raise", "lower"}[rng.Intn(5)])
+		}
+	}
+	cur, cache := cap0, 0
+	for _, kd := range kinds {
+		if kd == "raise" && cur >= 6 {
+			kd = "lower"
+		} else if kd == "lower" && cur <= 2 {
+			kd = "raise"
+		}
+		switch kd {
+		case "raise":
+			cur += 1 + rng.Intn(6-cur)
+		case "lower":
+			cur -= 1 + rng.Intn(cur-2)
+		case "other":
+			cache = 8 + rng.Intn(8)*2 + (1 - cache%2) // differs from the previous value
+		}
+		steps = append(steps, c11hStep{Kind: kd, Cap: cur, Cache: cache})
+	}
+	return
+}
+
+// TestVerif_C11_RuntimeOptionHistory: see the Rule text.
+func TestVerif_C11_RuntimeOptionHistory(t *testing.T) {
+	r := kit.Start(t, "C11")
+	defer r.Finish()
+	r.Rule("rig 5 (option histories): a real HTTPServer object listening on a loopback port is created with maxConnections in 2..5 and taken through 4-8 hot updates (HTTPServer.Inherit), each of kind rules-only | other option (cacheSize) | maxConnections raised | maxConnections lowered (values 2..6), so that the option is left unchanged by some updates and changed by later ones (every third case: create -> rules-only -> change -> rules-only -> change back); the rules carry the generation number; in half of the cases one request stays parked inside the previous generation's backend while the update is applied; after each update has become visible (a fresh request answered by the new generation) as many requests as the APPLIED spec's maxConnections allows are held simultaneously on connections of their own (the in-flight one included) and every one of them must ENTER its backend under the new generation: when the limit was raised this needs the new limit to be in force, not the old one; then all are released and must complete 200 under the generation that they entered; verdict for a limit that is not in force: an atomic goroutine snapshot shows that the capacity adjustment requested by the update waits for an earlier one while no adjustment goroutine is active any more (it can never take effect), or the capacity requested from the listener (read under the semaphore's lock once the fsm has drained its queue) is not the applied spec's value; a watchdog alone is inconclusive; distinct = (kind of the update, kind of the update before it, direction old cap -> new cap, request in flight)")
+	r.Assume("the update has become visible when a fresh request is answered by the new generation's backend; maxConnections = number of simultaneously open connections the listener accepts (the accept loop takes its permit before accepting, so exactly maxConnections connections can be open and served); SetMaxConnection is only called by the runtime's fsm goroutine, one call after the other; watchdogs of 30-60 s are inconclusive, never violations")
+	cases := r.N(12, 120)
+	for i := 0; i < cases; i++ {
+		if !r.Mine(i) {
+			continue
+		}
+		rng := r.CaseRand(i)
+		cap0, steps := c11hHistory(rng, i, cases > 12)
+		inflight := rng.Intn(2) == 0
+		r.Case(i, map[string]interface{}{"cap0": cap0, "steps": steps, "request_in_flight_across_updates": inflight})
+		var (
+			port   int
+			addr   string
+			cur    *HTTPServer
+			mapper *c11rtMapper
+			up     bool
+		)
+		mkSpec := func(k, maxConn, cache int) *supervisor.Spec {
+			s, err := supervisor.NewSpec(c11hSpec(port, k, maxConn, cache))
+			if err != nil {
+				t.Fatalf("spec rejected: %v", err)
+			}
+			return s
+		}
+		for try := 0; try < 4 && !up; try++ {
+			if port = c11rtFreePort(); port == 0 {
+				continue
+			}
+			addr = fmt.Sprintf("127.0.0.1:%d", port)
+			mapper = &c11rtMapper{entered: make(chan string, 32), release: make(chan struct{})}
+			cur = &HTTPServer{}
+			cur.Init(mkSpec(0, cap0, 0), mapper)
+			for n := 0; n < 300 && !up; n++ {
+				if g := c11rtGet(addr, "/fast", 5*time.Second); g.Status == 200 && g.Backend == "fast-0" {
+					up = true
+				} else {
+					time.Sleep(10 * time.Millisecond)
+				}
+			}
+			if !up {
+				r.Count("runtime_port_lost_to_another_process_or_server_slow", 1)
+				cur.Close()
+			}
+		}
+		if !up {
+			r.Inconclusive("server did not come up on " + addr)
+			continue
+		}
+		if i < 2 {
+			r.Sample(map[string]interface{}{"rig": "runtime-option-history", "cap0": cap0, "steps": steps, "request_in_flight_across_updates": inflight})
+		}
+		// adjustment goroutines that wait already (of servers of earlier cases) are not this
+		// server's
+		baseWaiting, _ := c11hAdjusters()
+		releaseAll := func() {
+			mapper.mu.Lock()
+			rel := mapper.release
+			mapper.release = make(chan struct{})
+			mapper.mu.Unlock()
+			close(rel)
+		}
+		type parked struct {
+			gen  int
+			done chan c11rtResp
+		}
+		var held []parked // requests that have entered their backend and are parked there
+		park := func(gen int) parked {
+			p := parked{gen: gen, done: make(chan c11rtResp, 1)}
+			go func() { p.done <- c11rtGet(addr, "/slow", 150*time.Second) }()
+			return p
+		}
+		abandoned := false
+		prevKind, prevCap := "create", cap0
+		for k := 1; k <= len(steps) && !abandoned; k++ {
+			st := steps[k-1]
+			dir := "same"
+			if st.Cap > prevCap {
+				dir = "raised"
+			} else if st.Cap < prevCap {
+				dir = "lowered"
+			}
+			ctx := map[string]interface{}{"generation": k, "update": st, "previous_update": prevKind, "previous_maxConnections": prevCap}
+			// in half of the cases one request is in flight in generation k-1 while k is applied
+			if inflight {
+				p := park(k - 1)
+				select {
+				case name := <-mapper.entered:
+					if name != fmt.Sprintf("slow-%d", k-1) {
+						r.Violation("httpserver-hot-update:stale-generation-after-update-visible:option-history", map[string]interface{}{"context": ctx, "entered_backend": name})
+					}
+					held = append(held, p)
+				case g := <-p.done:
+					r.Inconclusive(fmt.Sprintf("option history: request ended before reaching its backend: err=%q status=%d backend=%q", kit.MsgClass(g.Err), g.Status, g.Backend))
+					abandoned = true
+				case <-time.After(30 * time.Second):
+					r.Inconclusive("option history: request to be held across the update never reached its backend")
+					abandoned = true
+				}
+				if abandoned {
+					break
+				}
+			}
+			next := &HTTPServer{}
+			next.Inherit(mkSpec(k, st.Cap, st.Cache), cur, mapper)
+			cur = next
+			// the update becomes visible
+			visible := false
+			deadline := time.Now().Add(30 * time.Second)
+			for !visible && !abandoned && time.Now().Before(deadline) {
+				g := c11rtGet(addr, "/fast", 10*time.Second)
+				r.Eval(1)
+				switch {
+				case g.Err != "":
+					r.Violation("httpserver-hot-update:fresh-connection-failed-during-update:option=maxConnections-history:"+dir+":"+kit.MsgClass(g.Err), map[string]interface{}{"context": ctx, "observed": g})
+					abandoned = true
+				case g.Status != 200:
+					r.Violation(fmt.Sprintf("httpserver-hot-update:request-failed-during-update:option=maxConnections-history:%s:status%d", dir, g.Status), map[string]interface{}{"context": ctx, "observed": g})
+					abandoned = true
+				case g.Backend == fmt.Sprintf("fast-%d", k):
+					visible = true
+				case g.Backend == fmt.Sprintf("fast-%d", k-1):
+					time.Sleep(2 * time.Millisecond)
+				default:
+					r.Violation("httpserver-hot-update:served-by-unknown-generation:option=maxConnections-history", map[string]interface{}{"context": ctx, "observed": g})
+					abandoned = true
+				}
+			}
+			if abandoned {
+				break
+			}
+			if !visible {
+				r.Inconclusive("option history: new generation not visible within the watchdog")
+				abandoned = true
+				break
+			}
+			// as many simultaneous connections as the applied spec allows: each must enter
+			var fresh []parked
+			for n := len(held); n < st.Cap; n++ {
+				fresh = append(fresh, park(k))
+			}
+			entered, ended, handedChecked := 0, 0, false
+			deadline = time.Now().Add(60 * time.Second)
+			tick := time.NewTicker(50 * time.Millisecond)
+			for entered+ended < len(fresh) && !abandoned {
+				select {
+				case name := <-mapper.entered:
+					entered++
+					if name != fmt.Sprintf("slow-%d", k) {
+						r.Violation("httpserver-hot-update:stale-generation-after-update-visible:option-history", map[string]interface{}{"context": ctx, "entered_backend": name})
+					}
+				case <-tick.C:
+					// a request that ended without entering (refused, reset)?
+					for _, p := range fresh {
+						select {
+						case g := <-p.done:
+							ended++
+							r.Violation("httpserver-hot-update:connection-within-applied-maxConnections-failed:"+dir+":"+kit.MsgClass(g.Err), map[string]interface{}{"context": ctx, "observed": g, "entered": entered + len(held), "allowed_by_applied_spec": st.Cap})
+							p.done <- g
+						default:
+						}
+					}
+					if ended > 0 {
+						abandoned = true
+						break
+					}
+					if w, a := c11hAdjusters(); a == 0 && w > baseWaiting {
+						// deterministic witness: the adjustment can never take effect
+						r.Violation("httpserver-hot-update:new-option-never-in-force:maxConnections:"+dir, map[string]interface{}{
+							"context": ctx, "entered_simultaneously": entered + len(held), "allowed_by_applied_spec": st.Cap,
+							"witness": fmt.Sprintf("%d capacity adjustment goroutine(s) of the limit listener wait for an earlier adjustment, none is active: the new limit can never take effect while the new rules are being served", w-baseWaiting)})
+						abandoned = true
+					} else if !handedChecked && entered+len(held) > 0 {
+						// not all have entered yet and no dead adjustment: was the new value handed
+						// to the listener at all?  (deterministic once the fsm has drained its queue)
+						handedChecked = true
+						if n, ok := c11hHandedOver(cur.runtime); ok && n != int64(st.Cap) {
+							r.Violation("httpserver-hot-update:limit-handed-to-listener-differs-from-applied-spec:maxConnections:"+dir, map[string]interface{}{"context": ctx, "handed_to_listener": n, "applied_spec": st.Cap, "entered_simultaneously": entered + len(held)})
+							abandoned = true
+						}
+					} else if time.Now().After(deadline) {
+						r.Inconclusive(fmt.Sprintf("option history: only %d of %d simultaneous requests entered their backend within the watchdog (%s, previous update %s)", entered+len(held), st.Cap, dir, prevKind))
+						abandoned = true
+					}
+				}
+			}
+			tick.Stop()
+			if abandoned {
+				break
+			}
+			held = append(held, fresh...)
+			// also when everything entered (limit lowered or unchanged): an adjustment that can
+			// never take effect leaves the old limit in force
+			if w, a := c11hAdjusters(); a == 0 && w > baseWaiting {
+				r.Violation("httpserver-hot-update:new-option-never-in-force:maxConnections:"+dir, map[string]interface{}{
+					"context": ctx, "entered_simultaneously": len(held), "allowed_by_applied_spec": st.Cap,
+					"witness": fmt.Sprintf("%d capacity adjustment goroutine(s) of the limit listener wait for an earlier adjustment, none is active: the new limit can never take effect while the new rules are being served", w-baseWaiting)})
+				abandoned = true
+				break
+			}
+			// the value the fsm handed to the listener while applying generation k is the spec's
+			if n, ok := c11hHandedOver(cur.runtime); !ok {
+				r.Count("runtime_history_handed_over_limit_not_observable", 1)
+			} else if n != int64(st.Cap) {
+				r.Violation("httpserver-hot-update:limit-handed-to-listener-differs-from-applied-spec:maxConnections:"+dir, map[string]interface{}{"context": ctx, "handed_to_listener": n, "applied_spec": st.Cap, "entered_simultaneously": len(held)})
+				abandoned = true
+				break
+			} else {
+				r.Count("runtime_history_handed_over_limit_equals_applied_spec", 1)
+			}
+			r.Count("runtime_history_applied_limit_fully_used", 1)
+			unchangedBefore := prevKind == "rules" || prevKind == "other"
+			if dir == "raised" {
+				r.Count("runtime_history_raised_limit_fully_used", 1)
+				if unchangedBefore {
+					r.Count("runtime_history_raised_limit_fully_used_after_update_that_left_it_unchanged", 1)
+				}
+			}
+			if dir == "lowered" && unchangedBefore {
+				r.Count("runtime_history_lowered_limit_after_update_that_left_it_unchanged", 1)
+			}
+			if dir == "same" && (prevKind == "raise" || prevKind == "lower") {
+				r.Count("runtime_history_limit_kept_by_update_after_change", 1)
+			}
+			// release: each completes under the generation it entered
+			releaseAll()
+			for _, p := range held {
+				select {
+				case g := <-p.done:
+					if g.Err != "" || g.Status != 200 || g.Backend != fmt.Sprintf("slow-%d", p.gen) {
+						r.Violation("httpserver-hot-update:in-flight-request-did-not-complete-under-its-generation:option=maxConnections-history", map[string]interface{}{"context": ctx, "entered_generation": p.gen, "observed": g})
+					} else {
+						r.Count("runtime_history_parked_requests_completed", 1)
+					}
+				case <-time.After(60 * time.Second):
+					r.Inconclusive("option history: parked request did not complete after release")
+					abandoned = true
+				}
+				r.Eval(1)
+			}
+			held = nil
+			r.Cover(fmt.Sprintf("runtime-history/%s/after=%s/%d->%d/inflight=%v", st.Kind, prevKind, prevCap, st.Cap, inflight))
+			prevKind, prevCap = st.Kind, st.Cap
+		}
+		if abandoned {
+			releaseAll() // parked requests must not keep Close waiting
+		}
+		cur.Close()
+	}
+	r.Require("runtime_history_applied_limit_fully_used", 1)
+	r.Require("runtime_history_raised_limit_fully_used_after_update_that_left_it_unchanged", 1)
+	r.Require("runtime_history_lowered_limit_after_update_that_left_it_unchanged", 1)
+	r.Require("runtime_history_limit_kept_by_update_after_change", 1)
+	r.Require("runtime_history_parked_requests_completed", 1)
+	r.Require("runtime_history_handed_over_limit_equals_applied_spec", 1)
 }
